@@ -24,17 +24,26 @@ CLAIM = dict(
          'sweep). Numeric part: Model/CrossNum.v instantiates the payload operations of Model/Cross.v with the array '
          'operations of cross.py (reshape of the value batch, unfolding, QR oracle, utils._maxvol with its eye branch, '
          'core = Fortran reshape of B, pending factor Q[ind] R, tensordot folds; both directions). '
-         'C05_iter_realises_scheme - a left-to-right _iter of this model computes one position of the interpolation '
-         'scheme (B Z[ind] = Z on the sampled columns, factor = Z[ind]) given Z = QR and B Q[ind] = Q on its own '
-         'matrices; C05_cross_exact_ltr / C05_cross_exact - for the MODEL DRIVER (Model/Cross.v step function with this '
-         'kernel, from any sweep head / from the state reached by cross_num): if at every position the sampled columns '
-         'span the unfolding of the target on the candidate rows and QR / maxvol meet their contracts there, the cores '
-         'held after a left-to-right half sweep evaluate to the target at EVERY multi-index (any working ranks, also '
-         'under rank growth). Supporting algebra over any commutative ring: C05_core_interp, C05_skeleton_exact '
+         'C05_iter_realises_scheme / C05_iter_realises_scheme_rtl - a left-to-right / right-to-left _iter of this model '
+         'computes one position of the interpolation scheme (B Z[ind] = Z on the sampled columns / rows, pending factor = '
+         'target values at the selected candidates) given Z = QR and B Q[ind] = Q on its own matrices; '
+         'C05_cross_exact_ltr, C05_cross_exact_rtl, C05_cross_exact_full_sweep - for the MODEL DRIVER (Model/Cross.v '
+         'step function with this kernel) from any sweep head: if on the way out the sampled columns span the unfolding '
+         'of the target on the candidate rows (pos_ok) and on the way back the sampled rows span it on the candidate '
+         'columns (rpos_ok), QR / maxvol meeting their contracts there, then the cores held after the left-to-right '
+         'half sweep, and the cores held at the END OF THE SWEEP, evaluate to the target at EVERY multi-index (any '
+         'working ranks, also under rank growth); C05_cross_exact_return - the same for the tensor RETURNED by '
+         'cross_num when it stops at a sweep end (run without cache and budget on an objective returning the target: '
+         'after fuel sweeps at a sweep head with no stop pending, cross_num (fuel+1) = Ok s: s is Done, is the state at '
+         'the end of that sweep, and evaluates to the target); C05_cross_exact - the left-to-right statement for the '
+         'state reached by cross_num. '
+         'Supporting algebra over any commutative ring: C05_core_interp, C05_skeleton_exact '
          '(A = A[:,J] A[I,J]^-1 A[I,:]), C05_span_of_rank (TT-rank rho + right-invertible sampled columns give the '
          'spanning hypothesis), C05_cross_exact_cond (the abstract scheme). Non-vacuity Examples over Z for every part.',
-    note='PARTIAL / not proved: (1) only the left-to-right half sweep is proved exact; the right-to-left half sweep is '
-         'modelled and run in the correspondence but its exactness theorem (mirror image) is not stated. (2) "almost '
+    note='PARTIAL / not proved: (1) exactness is proved for the tensor held after a left-to-right half sweep and for the '
+         'tensor held / returned at a sweep end; a run interrupted INSIDE a half sweep (budget, objective None: the mixed '
+         'state with a folded pending factor) is covered by the correspondence and the search only, and by '
+         'C05_cache_transparent for cached runs (same cores as the uncached run). (2) "almost '
          'all tensors" (measure zero of the bad set) is not formalised: genericity enters as the explicit spanning '
          'hypothesis per position (pos_ok / span_ok), which C05_span_of_rank derives from TT-rank rho with invertible '
          'intersections; that the index sets met by a run satisfy it is not proved - in the over-ranked regime an '
